@@ -318,6 +318,37 @@ def top_pat_variants(p):
     return ['?' + k]
 
 
+def int_value(node, ast=None, file=None, depth=0):
+    """Value of an integer constant expression: a literal, a named `const` of the crate (same file
+    preferred), parentheses, `|`, `&`, `+`, `<<` of such.  None when it is anything else."""
+    if not isinstance(node, dict) or depth > 6:
+        return None
+    k = node.get('k')
+    if k == 'lit' and 'int' in node:
+        try:
+            return int(node['int'])
+        except (TypeError, ValueError):
+            return None
+    if k in ('paren', 'group', 'cast'):
+        return int_value(node.get('expr') or node.get('e'), ast, file, depth + 1)
+    if k == 'path' and ast is not None:
+        nm = node['path'].split('::')[-1]
+        cs = [(p_, c) for (p_, c) in ast.consts.get(nm, [])]
+        if file:
+            same = [(p_, c) for (p_, c) in cs if p_.endswith(file) or file.endswith(p_)]
+            cs = same or cs
+        if len(cs) == 1:
+            return int_value(cs[0][1].get('expr'), ast, file, depth + 1)
+        return None
+    if k == 'binary' and node.get('op') in ('|', '&', '+', '<<'):
+        l = int_value(node.get('lhs'), ast, file, depth + 1)
+        r = int_value(node.get('rhs'), ast, file, depth + 1)
+        if l is None or r is None:
+            return None
+        return {'|': l | r, '&': l & r, '+': l + r, '<<': l << r}[node['op']]
+    return None
+
+
 def strings_in(node, ast=None):
     """String literals in node; with `ast`, identifiers naming a string constant are resolved."""
     out = [n['str'] for n in walk(node) if n.get('k') == 'lit' and 'str' in n]
